@@ -207,6 +207,9 @@ for _p in ("C07", "C08", "C11"):
 for _p in ("C01", "C03", "C06", "C09", "C11"):
     _s = PROPS[_p]
     _s["prop_files"] = _s.get("prop_files", [_p]) + ["LexerDoc"]
+for _p in ("C01", "C06"):
+    _s = PROPS[_p]
+    _s["prop_files"] = _s.get("prop_files", [_p]) + ["LexerDoc2"]
 for _p in ("C01", "C03", "C04", "C05", "C06", "C07", "C08", "C09", "C10", "C11", "C14"):
     _s = PROPS[_p]
     if "LexCorr" not in _s["corr"]:
